@@ -66,6 +66,12 @@ Proof. exact C16_return_list_holds. Qed.
 Check C16_return_list : forall p p' t f t', TInv t -> execute t f = Ok t' -> holds_C16_return_list (mkVt p t) f (mkVt p' t') = true.
 Print Assumptions C16_return_list.
 
+(** the same with the leaving mode in ANY position of the list (CSI ? 6 ; 1049 l, CSI ? 25 ; 47 ; 7 l): the non-switching modes before it are executed first (they may move the cursor), and the cursor that decides where the parked primary may be cut is the one after them *)
+Theorem C16_return_list_any : forall p p' t f t', TInv t -> execute t f = Ok t' -> holds_C16_return_list_any (mkVt p t) f (mkVt p' t') = true.
+Proof. exact C16_return_list_any_holds. Qed.
+Check C16_return_list_any : forall p p' t f t', TInv t -> execute t f = Ok t' -> holds_C16_return_list_any (mkVt p t) f (mkVt p' t') = true.
+Print Assumptions C16_return_list_any.
+
 (** the ?1049l clause of C16_resized_statement for every scrollback limit *)
 Theorem C16_resized_1049_every_limit : forall p' t t', TInv t -> active t = Alternate -> execute t (Decrst [SaveCursorAltScreenBuffer]) = Ok t' -> resize_preserves (other t) (sc_col (saved_of t Primary)) (sc_row (saved_of t Primary)) (buf t') (cur_col t') (cur_row t') = true /\ holds_C02_state (mkVt p' t') = true.
 Proof. exact C16_resized_1049_any_limit. Qed.
